@@ -120,8 +120,8 @@ def named_files(op):
     return []
 
 
-def run_op(ns, world, knobs, op, fault=None, record_steps=False):
-    sim = fs.Sim(world, fault=fault, bufsize=knobs.get("bufsize", 8192), record_steps=record_steps)
+def run_op(ns, world, knobs, op, fault=None, record_steps=False, real_kill=False):
+    sim = fs.Sim(world, fault=fault, bufsize=knobs.get("bufsize", 8192), record_steps=record_steps, real_kill=real_kill)
     fn = make_callable(ns, world, knobs, op)
     style = knobs.get("path_style")
     outcome = fs.run_process(ns, sim, fn, cwd=world.root if style == "relative" or op["op"] == "gen" else None,
@@ -997,3 +997,58 @@ def execute_enum(scenario, nsteps=24):
     finally:
         world.close()
     return {"violations": violations, "digest": digest(digests), "stats": stats, "status": out1["status"], "nfaults": len(faults)}
+
+
+# -------------------------------------------------------------------- fidelity tier
+def fidelity_child(task):
+    """Child side: attach to the parent's world directory and run ONE operation with a KILL fault delivered as a
+    real SIGKILL of this process."""
+    ns = setup()
+    world = fs.World(attach=task["root"])
+    out, sim = run_op(ns, world, task["knobs"], task["op"], fault=task["fault"], real_kill=True)
+    return {"status": out["status"], "fired": sim.fired}
+
+
+def fidelity_case(scenario):
+    """Parent side.  Execute all but the last op in-process; for the last op (which carries a KILL fault with a concrete
+    index) produce the simulated post-state and the post-state after a real kill of a real child; return both."""
+    import json
+    import subprocess
+    from dtsim import core
+
+    ns = setup()
+    knobs = dict(scenario.get("knobs", {}), bufsize=8192)
+    world = fs.World()
+    try:
+        for rel, text in sorted(scenario.get("files", {}).items()):
+            world.write(rel, text)
+        for op in scenario["ops"][:-1]:
+            if op["op"] == "env":
+                world.write(op["path"], op.get("text"))
+            else:
+                run_op(ns, world, knobs, op)
+        op = scenario["ops"][-1]
+        S0 = world.snapshot()
+        out1, sim1 = run_op(ns, world, knobs, op)
+        fault = resolve_fault(op["fault"], sim1)
+        if fault is None:
+            return None
+        if fault.get("cut") not in (None, 0):
+            fault = dict(fault, cut=0)
+        world.restore(S0)
+        outS, simS = run_op(ns, world, knobs, op, fault=fault)
+        S_sim = world.snapshot()
+        world.restore(S0)
+        tf = world.root + ".task.json"
+        with fs._orig_open(tf, "wt") as f:
+            json.dump({"root": world.root, "knobs": knobs, "op": op, "fault": fault}, f)
+        p = subprocess.run([core.PYTHON, "-W", "ignore", core.LAUNCHER, "worker", "fidelity", tf], env=core.worker_env(), cwd=core.VERIF,
+                           stdout=subprocess.PIPE, stderr=subprocess.PIPE, timeout=120)
+        os.remove(tf)
+        S_real = world.snapshot()
+        return {"fault": fault, "sim_fired": simS.fired is not None, "sim_status": outS["status"], "child_rc": p.returncode,
+                "equal": S_sim == S_real, "sim": {k: sha(v) for k, v in S_sim.items()}, "real": {k: sha(v) for k, v in S_real.items()},
+                "event_kind": simS.fired["event_kind"] if simS.fired else None, "in_flight": bool(simS.fired and simS.fired.get("write_in_flight")),
+                "child_err": p.stderr.decode(errors="replace")[-300:] if p.returncode not in (-9, 0) else ""}
+    finally:
+        world.close()
